@@ -21,13 +21,16 @@ def search(ck, tier, seed):
                         continue
                     g = tgen(seed, fam, K, kind, bi)
                     params = sh.gen_params(fam, K, False, kind, g)
-                    for inverse in (False, True):
+                    for mins, inverse in [(m_, i_) for m_ in sh.MINS[fam] for i_ in (False, True)]:
+                        if mins is not None and (kind not in ("normal", "zeros") or mins["min_bin_width"] * K > 1 or mins["min_bin_height"] * K > 1):
+                            continue
+                        mbw = 1e-3 if mins is None else mins["min_bin_width"]
                         dom = (box[2], box[3], box[0], box[1]) if inverse else box
                         lo, hi, blo, bhi = dom
                         if inverse:
                             # input-side knots of the inverse are the forward images of the knots
-                            kx = torch.tensor(sh.knots_x(fam, params, box), dtype=torch.float64)
-                            r0 = sh.call(fam, False, kx.clamp(box[0], box[1]), params, box=box)
+                            kx = torch.tensor(sh.knots_x(fam, params, box, mbw), dtype=torch.float64)
+                            r0 = sh.call(fam, False, kx.clamp(box[0], box[1]), params, box=box, extra=mins)
                             if r0[0] != "ok":
                                 continue
                             ky = r0[1][0].clamp(lo, hi)
@@ -42,15 +45,22 @@ def search(ck, tier, seed):
                                 pts.add((a + b) / 2)
                             x = torch.tensor(sorted(pts), dtype=torch.float64)
                         else:
-                            x = sh.grid(fam, params, box)
-                        ck.case(("c09", fam, K, kind, bi, inverse), nontrivial=K >= 2)
+                            x = sh.grid(fam, params, box, mbw=mbw)
+                        ck.case(("c09", fam, K, kind, bi, inverse, str(mins)), nontrivial=K >= 2)
+                        unstable = fam == "cubic" and inverse and kind in ("wide", "onehot")
+
+                        def report(key, what, case_):
+                            # the cubic inverse's root selection is numerically unreliable for strongly non-uniform parameters
+                            # (one-hot or N(0,16) logits): NaN, jumps, loss of monotonicity and overshoot at knots and end
+                            # points are symptoms of that one known defect; for moderate parameters each symptom keeps its key
+                            ck.finding("spline:cubic-inverse-unstable-for-non-uniform-parameters" if unstable else key, what, case_)
                         ck.count("family=" + fam)
-                        r = sh.call(fam, inverse, x, params, box=box)
+                        r = sh.call(fam, inverse, x, params, box=box, extra=mins)
                         case = {"search": "bounded", "family": fam, "K": K, "kind": kind, "box": box, "inverse": inverse,
-                                "seed": seed}
+                                "mins": mins, "seed": seed}
                         tag = "%s:%s" % (fam, "inverse" if inverse else "forward")
                         if r[0] != "ok":
-                            ck.finding("spline:raises-in-domain:%s:%s" % (tag, r[1]),
+                            report("spline:raises-in-domain:%s:%s" % (tag, r[1]),
                                        "%s K=%d params=%s box=%s: %s %s" % (tag, K, kind, box, r[1], r[2]), case)
                             continue
                         y, lad = r[1]
@@ -60,28 +70,32 @@ def search(ck, tier, seed):
                         vtol = 1e-4 * scale if (fam == "cubic" and inverse) else 1e-9 * scale
                         mtol = 1e-4 * scale if (fam == "cubic" and inverse) else 1e-12 * scale
                         if not bool(torch.isfinite(y).all()):
-                            bad = x[~torch.isfinite(y)][:3].tolist()
-                            ck.finding("spline:non-finite-output:%s:%s" % (tag, kind), "K=%d params=%s box=%s at x=%s" % (K, kind, box, bad), case)
+                            badx = x[~torch.isfinite(y)]
+                            bad = badx[:3].tolist()
+                            sc_ = 1e-9 * max(1.0, abs(lo), abs(hi))
+                            at_end = bool((((badx - hi).abs() <= sc_) | ((badx - lo).abs() <= sc_)).all())
+                            where = "end-point" if (fam == "cubic" and inverse and at_end) else kind
+                            report("spline:non-finite-output:%s:%s" % (tag, where), "K=%d params=%s box=%s at x=%s" % (K, kind, box, bad), case)
                             continue
                         d = y[1:] - y[:-1]
                         if bool((d < -mtol).any()):
                             i = int(torch.argmin(d))
-                            ck.finding("spline:not-monotone:%s" % tag,
+                            report("spline:not-monotone:%s" % tag,
                                        "K=%d params=%s box=%s: f(%r)=%r > f(%r)=%r" % (K, kind, box, float(x[i]), float(y[i]),
                                                                                   float(x[i + 1]), float(y[i + 1])), case)
                         # strictness between points that are not float neighbours
                         gap = (x[1:] - x[:-1]) > 1e-6 * scale
                         if not (fam == "cubic" and inverse) and bool(((d <= 0) & gap).any()):
                             i = int(torch.nonzero((d <= 0) & gap)[0])
-                            ck.finding("spline:not-strictly-increasing:%s" % tag,
+                            report("spline:not-strictly-increasing:%s" % tag,
                                        "K=%d params=%s box=%s: f(%r)=%r, f(%r)=%r" % (K, kind, box, float(x[i]), float(y[i]),
                                                                                  float(x[i + 1]), float(y[i + 1])), case)
                         if abs(float(y[0]) - blo) > vtol or abs(float(y[-1]) - bhi) > vtol:
-                            ck.finding("spline:end-points-not-mapped:%s" % tag,
+                            report("spline:end-points-not-mapped:%s" % tag,
                                        "K=%d params=%s box=%s: f(%r)=%r (want %r), f(%r)=%r (want %r)"
                                        % (K, kind, box, lo, float(y[0]), blo, hi, float(y[-1]), bhi), case)
                         if float(y.min()) < blo - vtol or float(y.max()) > bhi + vtol:
-                            ck.finding("spline:leaves-output-interval:%s" % tag,
+                            report("spline:leaves-output-interval:%s" % tag,
                                        "K=%d params=%s box=%s: range [%r, %r]" % (K, kind, box, float(y.min()), float(y.max())), case)
                         # continuity across float-adjacent grid points
                         adj = ~gap
@@ -89,7 +103,7 @@ def search(ck, tier, seed):
                         allowed = 1e-7 * scale + vtol + 4.0 * slope * (x[1:] - x[:-1])
                         if bool((d.abs()[adj] > allowed[adj]).any()):
                             i = int(torch.nonzero(adj & (d.abs() > allowed))[0])
-                            ck.finding("spline:discontinuous-at-knot:%s" % tag,
+                            report("spline:discontinuous-at-knot:%s" % tag,
                                        "K=%d params=%s box=%s: jump %g at x=%r" % (K, kind, box, float(d[i]), float(x[i])), case)
     # tails
     for fam in sh.FAMILIES:
@@ -104,10 +118,12 @@ def search(ck, tier, seed):
                     b = torch.tensor(B, dtype=torch.float64)
                     x = torch.stack([-b * 3, torch.nextafter(-b, -inf), -b, torch.nextafter(-b, inf), torch.tensor(0.1 * B, dtype=torch.float64),
                                      torch.nextafter(b, -inf), b, torch.nextafter(b, inf), b * 3, b + 100.0])
-                    for inverse in (False, True):
-                        ck.case(("c09-tails", fam, K, B, kind, inverse), nontrivial=True)
-                        r = sh.call(fam, inverse, x, params, tail_bound=B)
-                        case = {"search": "tails", "family": fam, "K": K, "kind": kind, "tail_bound": B, "inverse": inverse, "seed": seed}
+                    for mins, inverse in [(m_, i_) for m_ in sh.MINS[fam] for i_ in (False, True)]:
+                        if mins is not None and kind != "normal":
+                            continue
+                        ck.case(("c09-tails", fam, K, B, kind, inverse, str(mins)), nontrivial=True)
+                        r = sh.call(fam, inverse, x, params, tail_bound=B, extra=mins)
+                        case = {"search": "tails", "family": fam, "K": K, "kind": kind, "tail_bound": B, "inverse": inverse, "mins": mins, "seed": seed}
                         tag = "%s:%s" % (fam, "inverse" if inverse else "forward")
                         if r[0] != "ok":
                             ck.finding("spline-tails:raises:%s:%s" % (tag, r[1]), "K=%d B=%g params=%s: %s" % (K, B, kind, r[2]), case)
